@@ -135,7 +135,7 @@ class WorkflowPlan:
         return self.graph.successors(task_id)
 
     def get_task_predecessors(self, task_id):
-        return self.graph.successors(task_id)
+        return self.graph.predecessors(task_id)
 
     def get_data_cost(self, task_u, task_v):
         pass
